@@ -30,6 +30,30 @@ func (e *Env) evalLoc(loc string) []modLoc {
 			return []modLoc{{comp: c, ref: e.tr(key).S}}
 		}
 	}
+	// type-level: every slice / map of this type
+	if strings.HasPrefix(loc, "[]") || strings.HasPrefix(loc, "map[") {
+		var out []modLoc
+		for _, c := range e.compsOfLocSpec(loc) {
+			out = append(out, modLoc{comp: c})
+		}
+		return out
+	}
+	if strings.HasPrefix(loc, "*") {
+		name := strings.TrimSpace(loc[1:])
+		first := name
+		if j := strings.IndexAny(name, ".[("); j >= 0 {
+			first = name[:j]
+		}
+		_, isVar := e.vars[first]
+		_, isCap := e.vars["&"+first]
+		if !isVar && !isCap && first != "result" && first != "self" {
+			var out []modLoc
+			for _, c := range e.compsOfLocSpec(loc) {
+				out = append(out, modLoc{comp: c})
+			}
+			return out
+		}
+	}
 	// X[*] : contents of a map or slice
 	if strings.HasSuffix(loc, "[*]") {
 		x, err := parseExpr(loc[:len(loc)-3])
@@ -704,9 +728,9 @@ func (vc *FnVC) applyContract(fc *FuncContract, sig *types.Signature, args []Val
 					}
 					_, vs := arrayParts(vc.compSort[m.comp])
 					fv := vc.enc.freshConst("hv", vs)
-					vc.setComp(st, m.comp, sto(vc.cur(st, m.comp), m.ref, fv))
 					// the caller itself must be allowed to modify this location
-					vc.frameCheckCall(pre, m, label)
+					fr := vc.frameCheckCall(pre, m, label)
+					vc.setCompF(st, m.comp, sto(vc.cur(st, m.comp), m.ref, fv), fr)
 				}
 			}
 		}
@@ -769,22 +793,22 @@ func (vc *FnVC) applyContract(fc *FuncContract, sig *types.Signature, args []Val
 }
 
 // frameCheckCall: a callee's write must be within the caller's own frame.
-func (vc *FnVC) frameCheckCall(pre *State, m modLoc, label string) {
+func (vc *FnVC) frameCheckCall(pre *State, m modLoc, label string) (fresh bool) {
 	if vc.fc == nil {
-		return
+		return false
 	}
 	if isGhostComp(m.comp) {
 		// ghost state may change only when the caller's own contract names it
 		for _, mm := range vc.modset {
 			if mm.comp == m.comp {
 				if mm.ref == "" {
-					return
+					return false
 				}
 			}
 		}
 		for _, cl := range vc.fc.Records {
 			if "Ghost$"+cl.Name == m.comp {
-				return
+				return false
 			}
 		}
 		var alts []string
@@ -794,12 +818,12 @@ func (vc *FnVC) frameCheckCall(pre *State, m modLoc, label string) {
 			}
 		}
 		vc.oblige("frame", m.comp+"@"+label, or(alts...), vc.fnTags(), "callee modifies ghost state the caller's contract does not name")
-		return
+		return false
 	}
 	if vc.modAll {
-		return
+		return false
 	}
-	vc.frameCheck(pre, m.comp, m.ref)
+	return vc.frameCheck(pre, m.comp, m.ref)
 }
 
 // ---- interface method calls ----
@@ -980,7 +1004,7 @@ func (vc *FnVC) mergeCaseStates(pre *State, outs []*State, guards []string) *Sta
 			sameEpoch = false
 		}
 	}
-	st := &State{ep: map[string]int{}, comp: map[string]string{}}
+	st := &State{ep: map[string]int{}, comp: map[string]string{}, base: map[string]string{}}
 	for k, v := range outs[0].ep {
 		st.ep[k] = v
 	}
@@ -1031,6 +1055,20 @@ func (vc *FnVC) mergeCaseStates(pre *State, outs []*State, guards []string) *Sta
 			vc.emit(implies(guards[i], eq(n, vc.cur(o, k))))
 		}
 		st.comp[k] = n
+	}
+	for _, k := range ks {
+		b0 := vc.curBase(outs[0], k)
+		same := true
+		for _, o := range outs[1:] {
+			if vc.curBase(o, k) != b0 {
+				same = false
+			}
+		}
+		if same {
+			st.base[k] = b0
+		} else if v, ok := st.comp[k]; ok {
+			st.base[k] = v
+		}
 	}
 	return st
 }
@@ -1173,7 +1211,7 @@ func (vc *FnVC) doAppend(res ssa.Value, c *ssa.CallCommon, st *State) {
 		newContent = nc
 	}
 	r := vc.newRef(st, "arr")
-	vc.setComp(st, comp, sto(vc.cur(st, comp), r, newContent))
+	vc.setCompFresh(st, comp, sto(vc.cur(st, comp), r, newContent))
 	capN := vc.enc.freshConst("cap", sInt)
 	newLen := "(+ (sl-len " + s + ") " + n + ")"
 	vc.assume("(>= " + capN + " " + newLen + ")")
